@@ -200,7 +200,22 @@ def run_case(case, want_trace=False):
                 expected.append((f["payload"], f["code"]))
                 v1, t1 = obs, t
 
-        if terminal and terminal[0] in ("network-before-first", "first-unsuccessful-with-observe"):
+        if terminal and terminal[0] == "network-before-first":
+            # the transport fails before any response: the request fails with a library error and the observation ends,
+            # exactly once, without having delivered anything (which signal it ends with is left open here)
+            cbs0 = [d_ for d_ in delivered if d_[1] == "cb"]
+            ends0 = [d_ for d_ in delivered if d_[1] in ("err", "end")]
+            v0 = []
+            if kind0 != "exception" or not isinstance(val0, error.Error):
+                v0.append(V("C07/request-outcome-after-early-transport-error", "%s %r" % (kind0, val0)))
+            if cbs0:
+                v0.append(V("C07/delivery-without-first-response", repr(cbs0[:2])))
+            if len(ends0) != 1:
+                v0.append(V("C07/terminal-signal-count", "%d terminal signals %r after a transport error before the first response" % (len(ends0), ends0[:3])))
+            for t_, msg_, e_, exc_ in net.loop_exceptions:
+                v0.append(V("C07/loop-exception/" + type(exc_).__name__, "%s %s" % (msg_, e_)))
+            return Outcome(v0, ["terminal-network-before-first", "mode-" + mode], False)
+        if terminal and terminal[0] == "first-unsuccessful-with-observe":
             return Outcome([], ["excluded:" + terminal[0]], False)
         if case["first"].get("blocks") and mode.startswith("bw") and kind0 == "exception" and icmp_times:
             # an ICMP error while the block-wise first response was still being fetched fails that fetch: the
